@@ -108,33 +108,7 @@ func checkC01Rest(c *core.Ctx) {
 	roots := p.Roots()
 	r14 := c.Rule("R1.4", "T", "every decoder adds a layer before chaining to the next decoder")
 	fns := core.SortedFns(roots.DecReach)
-	sum := mustAddSummary(p, fns)
-	n := 0
-	for _, fn := range fns {
-		bp := builderParam(fn)
-		if bp == nil {
-			continue
-		}
-		core.Instrs(fn, func(ins ssa.Instruction) {
-			if !isBuilderCall(ins, "NextDecoder") {
-				return
-			}
-			n++
-			esc := core.ForwardSearch(fn, nil, func(i ssa.Instruction) bool { return i == ins }, func(i ssa.Instruction) bool {
-				if isBuilderCall(i, "AddLayer") {
-					return true
-				}
-				if cc := core.CallCommonOf(i); cc != nil {
-					if f := cc.StaticCallee(); f != nil && sum[f] {
-						return true
-					}
-				}
-				return false
-			})
-			r14.Check(esc == nil, core.FnKey(fn)+"/NextDecoder", p.InstrPos(ins), "AddLayer precedes on every path", "NextDecoder reachable without a preceding AddLayer: eager decoding returns ErrNoLayersAdded, lazy decoding re-decodes the same bytes")
-		})
-	}
-	c.Counts["NextDecoder_sites"] = n
+	addLayerBeforeChaining(c, r14)
 
 	r13 := c.Rule("R1.3", "B", "no error returned by decode-reachable module code is dropped or swallowed inside decode code")
 	n13 := decodeErrorDiscipline(c, r13, fns, func(cc *ssa.CallCommon) bool {
@@ -150,6 +124,40 @@ func checkC01Rest(c *core.Ctx) {
 		return false
 	})
 	c.Counts["decode_error_call_sites"] = n13
+	// errors built in decode code are used: a value of errors.New / fmt.Errorf (or any
+	// call returning just an error) that nothing refers to was meant for a return that
+	// no longer carries it (named result overwritten by an explicit `return x, nil`)
+	nBuilt := 0
+	for _, fn := range fns {
+		k := 0
+		core.Instrs(fn, func(ins ssa.Instruction) {
+			call, ok := ins.(*ssa.Call)
+			if !ok || !types.Identical(call.Type(), errorType) {
+				return
+			}
+			f := call.Call.StaticCallee()
+			if f == nil || f.Pkg == nil || !(f.Pkg.Pkg.Path() == "errors" && f.Name() == "New" || f.Pkg.Pkg.Path() == "fmt" && f.Name() == "Errorf") {
+				return
+			}
+			nBuilt++
+			used := false
+			for _, ref := range *call.Referrers() {
+				if _, dbg := ref.(*ssa.DebugRef); !dbg {
+					used = true
+				}
+			}
+			if !used {
+				k++
+				r13.Violate(fmt.Sprintf("%s/built-error-unused#%d", core.FnKey(fn), k), p.InstrPos(ins), "an error is built here but no return, store or call receives it: the failure it describes is reported as success (a named error result assigned before a break/goto is overwritten by an explicit nil in the return that follows)", nil)
+			}
+		})
+	}
+	c.Counts["errors_built_in_decode_code"] = nBuilt
+	if nBuilt < 300 {
+		r13.Missing("decode/built errors", fmt.Sprintf("only %d error constructions found", nBuilt))
+	} else {
+		r13.OK("decode/built-errors-used", "", fmt.Sprintf("%d error values built by errors.New/fmt.Errorf in decode-reachable code; every one is referred to", nBuilt))
+	}
 
 	r16 := c.Rule("R1.6", "D", "progress: a decoder that hands data[n:] to the next decoder has n >= 1 proven (or at least not refuted)")
 	payloadProgress(c, r16)
@@ -411,4 +419,41 @@ func payloadProgress(c *core.Ctx, r16 *core.Rule) {
 		}
 	}
 	c.Counts["payload_advance_sites"] = nPA
+}
+
+// addLayerBeforeChaining (R1.4 = R3.4): on every path to a NextDecoder call
+// the decoder has added a layer (directly or through a helper that always
+// does).  Without it eager decoding returns ErrNoLayersAdded where lazy
+// decoding, whose NextDecoder only stores, decodes the same bytes again.
+func addLayerBeforeChaining(c *core.Ctx, r14 *core.Rule) {
+	p := c.P
+	roots := p.Roots()
+	fns := core.SortedFns(roots.DecReach)
+	sum := mustAddSummary(p, fns)
+	n := 0
+	for _, fn := range fns {
+		bp := builderParam(fn)
+		if bp == nil {
+			continue
+		}
+		core.Instrs(fn, func(ins ssa.Instruction) {
+			if !isBuilderCall(ins, "NextDecoder") {
+				return
+			}
+			n++
+			esc := core.ForwardSearch(fn, nil, func(i ssa.Instruction) bool { return i == ins }, func(i ssa.Instruction) bool {
+				if isBuilderCall(i, "AddLayer") {
+					return true
+				}
+				if cc := core.CallCommonOf(i); cc != nil {
+					if f := cc.StaticCallee(); f != nil && sum[f] {
+						return true
+					}
+				}
+				return false
+			})
+			r14.Check(esc == nil, core.FnKey(fn)+"/NextDecoder", p.InstrPos(ins), "AddLayer precedes on every path", "NextDecoder reachable without a preceding AddLayer: eager decoding returns ErrNoLayersAdded, lazy decoding re-decodes the same bytes")
+		})
+	}
+	c.Counts["NextDecoder_sites"] = n
 }
